@@ -160,3 +160,78 @@ contract("verif.harness.ecc.tagged", props=("C02",),
          params={"tag": ("choice", [b"BIP0340/aux", b"BIP0340/nonce", b"BIP0340/challenge", b"TapLeaf", b"TapBranch", b"TapTweak", b"TapSighash", b"KeyAgg list", b"KeyAgg coefficient", b"MuSig/noncecoef"]),
                  "msg": "bytes"},
          ensures=["returns()", "result == spec.schnorr.tagged(tag, msg)", "len(result) == 32"], gen=_gen_tagged)
+
+
+# ---------------------------------------------------------------------------- C03 field and encodings
+def _gen_fe_for(op):
+    def gen(rng, tier):
+        for p in (2, 3, 5, 7, 11, 13, 17, 19, 23, 29, 31):
+            for a in range(p):
+                for b in range(p):
+                    yield {"op": op, "a": a, "b": b, "p": p}
+        Pf = 2**256 - 2**32 - 977
+        while True:
+            yield {"op": op, "a": rng.randrange(Pf), "b": rng.randrange(Pf), "p": Pf}
+    return gen
+
+
+for _op, _f in (("add", "(a + b) % p"), ("sub", "(a - b) % p"), ("mul", "(a * b) % p"), ("rmul", "(a * b) % p")):
+    contract("verif.harness.ecc.fe_op#%s" % _op, props=("C03",),
+             params={"op": ("const", _op), "a": "int", "b": "int", "p": "int"},
+             requires=["p >= 2", "0 <= a < p", "0 <= b < p"],
+             ensures=["returns()", "result == (%s, p)" % _f, "0 <= result[0] < p"],
+             gen=_gen_fe_for(_op))
+contract("verif.harness.ecc.fe_new", props=("C03",), params={"a": "int", "p": "int"}, requires=["p >= 2"],
+         raises={"ValueError": "a < 0 or a >= p"}, ensures=["implies(returns(), result == a)"],
+         gen=lambda rng, tier: ({"a": a, "p": p} for p in (2, 7, 31) for a in (-1, 0, 1, p - 1, p, p + 1)))
+
+_PF = 2**256 - 2**32 - 977
+contract("verif.harness.ecc.s256_div", props=("C03",), nl_uf=True,
+         params={"a": ("int", 0, _PF - 1), "b": ("int", 1, _PF - 1)},
+         ensures=["returns()", "0 <= result < %d" % _PF, "(result * b) %% %d == a" % _PF],
+         gen=lambda rng, tier: ({"a": rng.randrange(_PF), "b": rng.randrange(1, _PF)} for _ in range(300)))
+
+
+def _gen_sec(rng, tier):
+    from buidl.pecc import PrivateKey
+    for d in _DS + [rng.randrange(1, N) for _ in range(10)]:
+        pt_ = PrivateKey(d).point
+        for comp in (True, False):
+            s = pt_.sec(comp)
+            yield {"b": s}
+            for pre in (0, 1, 2, 3, 4, 5, 6, 7, 0x82, 0xff):
+                yield {"b": bytes([pre]) + s[1:]}
+            yield {"b": s[:-1]}
+            yield {"b": s + b"\x00"}
+            yield {"b": s[:1] + bytes([s[1] ^ 1]) + s[2:]}
+    for n in (0, 1, 31, 32, 33, 34, 64, 65, 66):
+        yield {"b": rand_bytes(rng, n)}
+
+
+for _n in (33, 65):
+    contract("verif.harness.ecc.parse_then_sec#len%d" % _n, props=("C03",), nl_uf=True,
+             params={"b": "bytes:%d" % _n}, requires=["len(b) == %d" % _n],
+             ensures=["implies(returns(), result == b)",
+                      "implies(returns(), b[0] in ((2, 3) if len(b) == 33 else (4,)))"],
+             gen=_gen_sec)
+
+contract("buidl.pecc.S256Point.parse#badlen", props=("C03",),
+         params={"cls": ("const_cls", "buidl.pecc.S256Point"), "binary": ("bytes", 0, 70)}, args=["cls", "binary"],
+         requires=["len(binary) not in (32, 33, 65)"], ensures=["raises(ValueError)"],
+         gen=lambda rng, tier: ({"binary": rand_bytes(rng, n)} for n in (0, 1, 31, 34, 64, 66, 70)))
+
+
+def _gen_pub(rng, tier):
+    for d in _DS + [rng.randrange(1, N) for _ in range(20)]:
+        for c in (True, False):
+            yield {"pub": {"__point__": d}, "compressed": c}
+
+
+contract("verif.harness.ecc.sec_then_parse", props=("C03",), nl_uf=True,
+         params={"pub": point, "compressed": "bool"},
+         ensures=["returns()", "result == (spec.curve.x_of(pub), spec.curve.y_of(pub))"], gen=_gen_pub)
+contract("verif.harness.ecc.xonly_then_parse", props=("C03",), nl_uf=True,
+         params={"pub": point},
+         ensures=["returns()", "result[0] == spec.curve.x_of(pub)", "result[1] % 2 == 0",
+                  "result[1] == (spec.curve.y_of(pub) if spec.curve.has_even_y(pub) else spec.curve.P - spec.curve.y_of(pub))"],
+         gen=lambda rng, tier: ({"pub": x["pub"]} for x in _gen_pub(rng, tier)))
